@@ -92,7 +92,12 @@ def g_sweep(run: Run, n_random, boundary=True):
         if got_g != want_g:
             run.disagree("fmtG6", dict(value=repr(x)), got_g, want_g)
         # the printer's count text, through the observable str(formula)
-        text = str(formula([(x, pt.elements.H)]))
+        try:
+            text = str(formula([(x, pt.elements.H)]))
+        except Exception as e:  # noqa  -- printing a formula never raises
+            run.violation("str(formula) raised %s for a count of %r" % (type(e).__name__, x),
+                          dict(source="count", value=repr(x)), kind="count-text")
+            continue
         want_s = text[1:] if x != 1 else G.positional(r6)
         if got_s != want_s and x != 1:
             run.disagree("strCount", dict(value=repr(x)), got_s, want_s)
@@ -240,7 +245,12 @@ def check_formulas(run: Run, tname, ref, tbl, prefix, items):
         run.dist["depth%d" % depth_of(st)] = run.dist.get("depth%d" % depth_of(st), 0) + 1
         name = f.name
         # ---- printing: model against code (the string is the observable)
-        s_py = F._str_atoms(f.structure) if name else str(f)
+        try:
+            s_py = F._str_atoms(f.structure) if name else str(f)
+            repr(f)
+        except Exception as e:  # noqa  -- printing a formula never raises
+            run.violation("str(f) raised %s" % type(e).__name__, inp, kind="unparseable-print")
+            continue
         s_model = G.dec(rep[3 * i].split()[1])
         if s_py != s_model:
             run.disagree("print(_str_atoms)", inp, s_model, s_py)
@@ -330,11 +340,17 @@ def gen_formulas(rng, ref, tbl, n, maxdepth):
                 f = parsed()
                 src = "parsed"
             elif r < 0.65:
-                f = rng.choice(base) + rng.choice(base)
+                a, b = rng.choice(base), rng.choice(base)
+                if rng.random() < 0.5:
+                    str(a), repr(b)     # operands that were printed before: a stale text must not leak
+                f = a + b
                 src = "add"
             elif r < 0.80:
                 m = rng.choice(MULTIPLIERS) if rng.random() < 0.7 else gen_count(rng)
-                f = m * rng.choice(base)
+                a = rng.choice(base)
+                if rng.random() < 0.5:
+                    str(a), repr(a)
+                f = m * a
                 src = "mul"
             elif r < 0.90:
                 parts = []
